@@ -37,6 +37,7 @@ def classify(e) -> str:
 
 class C03(Prop):
     id = "C03"
+    noise_sample = 300
     gen_module = "FsSessionGen"
     judge_module = "FsSessionJudge"
     assumptions = [
